@@ -28,7 +28,7 @@ M = {
     "revert-F15-4-compare-outside": ("pyrefact/symbolic_math.py", "            value = core.literal_value(node)\n        except ValueError:", "            value = constants.COMPARISON_OPERATORS[type(operator)](core.literal_value(node.left), core.literal_value(comparator))\n        except ValueError:"),
     "gate-ignores-attributes": ("pyrefact/core.py", "            or not all(child.attr in safe_callable_whitelist for child in walk(node, ast.Attribute))", "            or False"),
     "dead-if-ifexp-swapped": ("pyrefact/fixes.py", "yield node, node.body if value else node.orelse", "yield node, node.orelse if value else node.body"),
-    "dead-while-inverted": ("pyrefact/fixes.py", "        if isinstance(node, ast.While) and not value:\n            yield node, None", "        if isinstance(node, ast.While) and value:\n            yield node, None"),
+    "dead-while-inverted": ("pyrefact/fixes.py", "        if isinstance(node, ast.While) and not value and not node.orelse:", "        if isinstance(node, ast.While) and value and not node.orelse:"),
     "unreachable-if-inverted": ("pyrefact/fixes.py", "            if test_value and node.body:\n                for child in node.orelse:", "            if not test_value and node.body:\n                for child in node.orelse:"),
     "redundant-mask-swapped": ("pyrefact/fixes.py", "mask.append(truthy if deterministic_value else falsy)", "mask.append(falsy if deterministic_value else truthy)"),
     "compare-fold-negated": ("pyrefact/symbolic_math.py", "        yield node, ast.Constant(value=value, kind=None)\n\n\n@processing.fix\ndef simplify_boolean_expressions_symmath", "        yield node, ast.Constant(value=not value, kind=None)\n\n\n@processing.fix\ndef simplify_boolean_expressions_symmath"),
